@@ -23,8 +23,8 @@ PROP = {
                   "(/control/clients/*) is not driven, concurrency is C05's subject. Trusts net/netip for "
                   "network containment.",
     "tests": [
-        ("TestVFC04Machine", (1500, 6000), {"steps": 40}),
-        ("TestVFC04Precedence", (4000, 25000)),
+        ("TestVFC04Machine", (1000, 6000), {"steps": 40, "shards": (3, 16)}),
+        ("TestVFC04Precedence", (6000, 25000), {"shards": (1, 16)}),
     ],
     "plain": [],
     "shards": (2, 16),
